@@ -253,5 +253,13 @@ def priority_scheduler(s, results: List[ExecutionResult],
         for sus in to_suspend:
             susobj = Suspend(sus.container_id, sus.pool_id)
             suspensions.append(susobj)
+            # Remember the job now: a short suspension can finish within the
+            # next tick, before any round sees it in suspending_containers
+            ops = [op for op in sus.operators if op.state() != OperatorState.COMPLETED]
+            s.suspending[sus.container_id] = WaitingQueueJob(
+                priority=sus.priority, p=ops[0].pipeline, ops=ops,
+                retry_stats=RetryStats(old_ram=sus.assignment.ram, old_cpu=sus.assignment.cpu,
+                                       error=sus.error, container_id=sus.container_id,
+                                       pool_id=sus.pool_id))
 
     return suspensions, new_assignments
